@@ -212,6 +212,8 @@ TABLE.update({
     "c01_transformer_chain_right_fold.diff": ("box", "contracts.cparse:parse_c:parse_arg_sets", None),
     "c16_parse_range_bounds_swapped.diff": ("box", "contracts.cparse:statement_c:statement_arg_sets", None),
     "c16_parse_step_ignored.diff": ("box", "contracts.cparse:statement_c:statement_arg_sets", None),
+    "c20_debug_info_declared_name_ignored.diff": ("box", "contracts.c20:build_debug_info:build_debug_info_arg_sets", None),
+    "c20_debug_info_context_line_first.diff": ("box", "contracts.c20:build_debug_info:build_debug_info_arg_sets", None),
     "c11_octal_parsed_as_decimal.diff": ("box", "contracts.c11:parse_number:parse_number_arg_sets", None),
     "c11_constant_value_dropped.diff": ("contracts.c11", "_configure_constant", "scalar"),
     "c11_bundle_constant_slots_collide.diff": ("contracts.c11", "_configure_constant", "bundle constant of 2"),
